@@ -202,7 +202,8 @@ TSuggest == /\ IsEvent("suggest")
             /\ UNCHANGED wvars /\ UNCHANGED cvars /\ UNCHANGED locks
             /\ PostOK(Rec[l].post)
 \* subtree roots of completed shards arrive (put_*_subtree_roots): no effect on the ledger, the scanned set or the tip
-TRoots == /\ IsEvent("roots") /\ Rec[l].res = "ok"
+TRoots == /\ IsEvent("roots")
+          /\ (Rec[l].res = "ok" \/ (Rec[l].res = "err" /\ taint /\ KnownStale("subtree root refused")))   \* the C06 finding also makes root insertion conflict
           /\ UNCHANGED wvars /\ UNCHANGED cvars /\ UNCHANGED locks /\ UNCHANGED sugg
           /\ PostOK(Rec[l].post)
 TSyncDone == /\ IsEvent("syncdone")
